@@ -1255,6 +1255,7 @@ func execAnotherModule(vm *r.VM, libInfo r.LibNameInfo) (*r.Module, error) {
 		}
 
 		vm.PopCallFrame()
+		module.SetLoaded()
 		return module, nil
 	}
 
